@@ -31,7 +31,9 @@
 (* Each MDA stage iterates on its RESOLVED variables (base_mda_solver.py,  *)
 (* jacobi.py, gauss_seidel.py, coupling_structure.py): the strong          *)
 (* couplings of its disciplines; for Jacobi all the couplings when some    *)
-(* discipline of the stage is not strongly coupled.  Only they enter the   *)
+(* discipline of the stage is not strongly coupled; for Gauss-Seidel,      *)
+(* under Rules = "repaired", also every coupling that a discipline reads   *)
+(* before its producer has run in the sweep.  Only they enter the          *)
 (* residual, its scaling, and the relaxation.                              *)
 (*                                                                         *)
 (* Actions, at the granularity of one discipline execution:                *)
